@@ -50,7 +50,7 @@ MEDIA_FEATURES = ['min-width', 'max-width', 'min-height', 'max-height', 'orienta
 PSEUDO = [':hover', ':focus', ':first-child', ':active', ':visited', ':last-child']
 PSEUDO2 = ['::before', '::after', '::first-line']
 ATTRS = ['[href]', '[type=text]', '[type="text"]', '[data-x="1"]', '[lang|=en]', '[title~=hello]', '[title="x,y"]', '[title="read > more"]',
-         '[data-k="a + b"]', "[alt='p ~ q']", '[data-s="semi;colon"]', '[data-b="{}"]', '[rel="a  b"]', '[href$=".pdf"]', '[data-c=", "]', '[width="100%"]', '[data-f="%s %(ws)s"]']
+         '[data-k="a + b"]', "[alt='p ~ q']", '[data-s="semi;colon"]', '[data-b="{}"]', '[rel="a  b"]', '[href$=".pdf"]', '[data-c=", "]', '[width="100%"]', '[data-f="%s %(ws)s"]', '[data-d="$$"]', '[data-q="?x?"]', '[data-m="a,$$b"]']
 IDS = ['main', 'top', 'nav', 'q1', 'zz-top', 'page', 'face', 'cafe', 'cafe1', 'deadbeef', 'abcdeg', 'abg', 'a1', 'bada55e', 'be', 'fade2', 'f00d']
 
 
